@@ -655,6 +655,8 @@ pub struct DiskState {
 	pub chans: BTreeMap<[u8; 32], ChanDisk>,
 	pub manager: Option<Vec<u8>>,
 	pub manager_generation: u64,
+	/// generation of the manager snapshot the current incarnation was loaded from
+	pub loaded_generation: u64,
 	/// per-channel asynchronous mode (one way until restart)
 	pub async_chans: BTreeMap<[u8; 32], bool>,
 	/// new channels of this node start asynchronous
